@@ -160,7 +160,9 @@ def hook_flatten_verifier(I, args, node):
     n = self.fields["num_vars"].e
     m = self.fields["V"].length()
     I.flatten_calls.append({"role": "verifier", "z": z, "n": n, "m": m, "where": FX.short(node.get("sp"))})
-    return Tup([sc_vec("wL", n), sc_vec("wR", n), sc_vec("wO", n), sc_vec("wV", m), Sc(ssym("wc"))])
+    from . import flatten as FL
+
+    return FL.shaped_return(I.F, "verifier", lambda r: Sc(ssym("wc")) if r == "wc" else sc_vec(r, m if r == "wV" else n))
 
 
 def hook_flatten_prover(I, args, node):
@@ -169,7 +171,9 @@ def hook_flatten_prover(I, args, node):
     n = self.fields["secrets"].fields["a_L"].length()
     m = self.fields["secrets"].fields["v"].length()
     I.flatten_calls.append({"role": "prover", "z": z, "n": n, "m": m, "where": FX.short(node.get("sp"))})
-    return Tup([sc_vec("wL", n), sc_vec("wR", n), sc_vec("wO", n), sc_vec("wV", m)])
+    from . import flatten as FL
+
+    return FL.shaped_return(I.F, "prover", lambda r: sc_vec(r, m if r == "wV" else n))
 
 
 def hook_exp_iter(I, args, node):
